@@ -46,26 +46,33 @@ fn histories(max_len: usize) -> Vec<Vec<Op>> {
     out
 }
 
-struct Checker {
+pub struct Checker {
+    pub tag: u8,
+    /// the stream under test is the only one (pending accept/open tasks are its concern too)
+    pub solo: bool,
     mon: WireMon,
     seen_events: usize,
-    violations: Vec<(String, String)>,
-    witnesses: u64,
-    fps: Vec<u64>,
+    pub violations: Vec<(String, String)>,
+    pub witnesses: u64,
+    pub fps: Vec<u64>,
     /// at the end of the previous step: the stream's flow was absent from side's table
     absent_prev: [bool; 2],
     established: [bool; 2],
     frames_seen: usize,
 }
 
-fn push_viol(v: &mut Vec<(String, String)>, key: &str, desc: String) {
+pub fn push_viol(v: &mut Vec<(String, String)>, key: &str, desc: String) {
     if !v.iter().any(|(k, _)| k == key) {
         v.push((key.to_string(), desc));
     }
 }
 
 impl Checker {
-    fn after_step(&mut self, w: &World, step: &Step, item: Option<&crate::link::Item>) {
+    pub fn new(tag: u8) -> Self {
+        Self { tag, solo: true, mon: WireMon::new(), seen_events: 0, violations: Vec::new(), witnesses: 0, fps: Vec::new(), absent_prev: [true, true], established: [false, false], frames_seen: 0 }
+    }
+
+    pub fn after_step(&mut self, w: &World, step: &Step, item: Option<&crate::link::Item>) {
         {
             let l = w.sim.link.lock();
             self.mon.absorb(&l);
@@ -77,15 +84,24 @@ impl Checker {
         let new: Vec<Ev> = obs.events[self.seen_events..].to_vec();
         let base = self.seen_events;
         self.seen_events = obs.events.len();
+        let tag_of = |e: &Ev| match e {
+            Ev::Read { tag, .. } | Ev::Wrote { tag, .. } | Ev::Shutdown { tag, .. } | Ev::Dropped { tag, .. } | Ev::OpenOk { tag, .. } | Ev::OpenErr { tag, .. } | Ev::Accepted { tag, .. } => Some(*tag),
+            _ => None,
+        };
+        let mytag = self.tag;
         for (off, e) in new.iter().enumerate() {
-            let before = &obs.events[..base + off];
+            if tag_of(e).is_some_and(|t| t != mytag) {
+                continue;
+            }
+            let before: Vec<&Ev> = obs.events[..base + off].iter().filter(|x| tag_of(x).is_none_or(|t| t == mytag)).collect();
+            let before = &before;
             match e {
                 Ev::Read { dir, res: Ok(0), .. } => {
                     self.witnesses |= W_EOF_SEEN;
                     let wside = usize::from(*dir); // dir 0 is written by the opener (side 0)
                     let shut = before.iter().any(|x| matches!(x, Ev::Shutdown { dir: d, res: Ok(()), .. } if d == dir));
                     let dropped = before.iter().any(|x| matches!(x, Ev::Dropped { side, .. } if *side == wside));
-                    let led = obs.dirs.get(&(TAG, *dir)).cloned().unwrap_or_default();
+                    let led = obs.dirs.get(&(mytag, *dir)).cloned().unwrap_or_default();
                     if !shut && !dropped {
                         push_viol(
                             &mut self.violations,
@@ -175,7 +191,7 @@ impl Checker {
         // flow presence (white box) for the write-after-abort rule
         let mut h = Fnv::default();
         for side in 0..2 {
-            let fid = obs.flow_ids.get(&(TAG, side)).copied();
+            let fid = obs.flow_ids.get(&(self.tag, side)).copied();
             if let (Some(fid), Some(mux)) = (fid, w.mux[side].as_ref()) {
                 let dig = mux.verif_flow_digest();
                 let present = dig.iter().any(|f| f.id == fid && f.kind == 1);
@@ -209,21 +225,27 @@ impl Checker {
         self.fps.push(h.0);
     }
 
-    fn at_end(&mut self, w: &World, horizon: bool) {
+    pub fn at_end(&mut self, w: &World, horizon: bool, check_leak: bool) {
         let obs = w.obs.borrow();
         if horizon {
             push_viol(&mut self.violations, "livelock", "step horizon reached".into());
         }
+        let mine = format!("s{}.", self.tag);
+        let opn = format!("open{}.", self.tag);
         for name in obs.pending() {
+            if !(name.starts_with(&mine) || name.starts_with(&opn) || (self.solo && name.starts_with("accept"))) {
+                continue;
+            }
             // which op is the actor blocked in?
             let side = usize::from(name.ends_with(".b"));
-            match obs.current_op.get(&(TAG, side)) {
+            match obs.current_op.get(&(self.tag, side)) {
                 Some(Op::ReadToEof(_) | Op::ReadOnce(_)) if name.starts_with('s') => {
                     let rdir = 1 - side as u8; // side 0 reads dir 1
                     let wside = 1 - side;
-                    let shut = obs.events.iter().any(|x| matches!(x, Ev::Shutdown { dir, res: Ok(()), .. } if *dir == rdir));
-                    let dropped = obs.events.iter().any(|x| matches!(x, Ev::Dropped { side: s, .. } if *s == wside));
-                    let led = obs.dirs.get(&(TAG, rdir)).cloned().unwrap_or_default();
+                    let t0 = self.tag;
+                    let shut = obs.events.iter().any(|x| matches!(x, Ev::Shutdown { tag, dir, res: Ok(()) } if *dir == rdir && *tag == t0));
+                    let dropped = obs.events.iter().any(|x| matches!(x, Ev::Dropped { tag, side: s } if *s == wside && *tag == t0));
+                    let led = obs.dirs.get(&(self.tag, rdir)).cloned().unwrap_or_default();
                     let data_left = led.read.len() < led.written.len();
                     if shut || dropped || data_left {
                         push_viol(
@@ -243,7 +265,10 @@ impl Checker {
                 }
             }
         }
-        for ((_, dir), d) in &obs.dirs {
+        for ((t, dir), d) in &obs.dirs {
+            if *t != self.tag {
+                continue;
+            }
             if d.read.len() > d.written.len() || d.read[..] != d.written[..d.read.len()] {
                 push_viol(&mut self.violations, "integrity.prefix", format!("direction {dir}: read {:02x?} not a prefix of written {:02x?}", d.read, d.written));
             }
@@ -254,7 +279,7 @@ impl Checker {
             }
         }
         // after both ends are done nothing may be left in either flow table
-        if obs.pending().is_empty() && !horizon {
+        if check_leak && obs.pending().is_empty() && !horizon {
             for side in 0..2 {
                 if let Some(mux) = w.mux[side].as_ref() {
                     let dig = mux.verif_flow_digest();
@@ -275,16 +300,7 @@ fn exec(a_ops: &[Op], b_ops: &[Op], render: bool) -> RunOutput {
     plans.insert(TAG, EndPlan::SeqKeep(b_ops.to_vec()));
     w.spawn_acceptor(1, 1, plans);
     w.spawn_opener(0, TAG, vec![TAG], 80, EndPlan::SeqKeep(a_ops.to_vec()));
-    let mut ck = Checker {
-        mon: WireMon::new(),
-        seen_events: 0,
-        violations: Vec::new(),
-        witnesses: 0,
-        fps: Vec::new(),
-        absent_prev: [true, true],
-        established: [false, false],
-        frames_seen: 0,
-    };
+    let mut ck = Checker::new(TAG);
     let mut horizon = false;
     loop {
         if w.sim.steps >= 3000 {
@@ -300,7 +316,7 @@ fn exec(a_ops: &[Op], b_ops: &[Op], render: bool) -> RunOutput {
         let item = w.sim.apply(&step);
         ck.after_step(&w, &step, item.as_ref());
     }
-    ck.at_end(&w, horizon);
+    ck.at_end(&w, horizon, true);
     let mut h = Fnv::default();
     for e in &w.obs.borrow().events {
         h.str(&format!("{e:?}"));
